@@ -165,6 +165,13 @@ Qed.
 
 End WithPrime.
 
+Lemma fr_from_zero e x y : e = fzero -> fsub x y = e -> x = y.
+Proof.
+  intros He H. rewrite He in H. transitivity (fadd (fsub x y) y); [ring|rewrite H; ring].
+Qed.
+Lemma fr_from_zero' e x y : e = fzero -> fsub y x = e -> x = y.
+Proof. intros He H. symmetry. eapply fr_from_zero; eauto. Qed.
+
 (* from here on the field operations are black boxes for conversion-based
    tactics; vm_compute still evaluates them *)
 Global Opaque fadd fsub fmul fopp finv fdiv of_Z.
